@@ -29,15 +29,55 @@ static int fixedEp(const Brd& b) {
     return any ? b.ep : -1;
 }
 
+#ifdef ABSLIST
+// Compositional variant: pseudoLegalMoves followed by removeIllegal is replaced by its contract (C01 O2/O3: the list holds legal moves only and no legal move is
+// missing): an arbitrary list of at most MAXL legal moves that contains every legal move onto the en-passant square.  What remains real is fixupEPSquare's own
+// scan (destination == ep square, moving piece is a pawn of the side to move) and the ep-square/hash update.
+#ifndef MAXL
+#define MAXL 4
+#endif
+static Brd gB; static bool listBoardMismatch;
+extern "C" void model_legalList(const Position& pos, MoveList& ml) {
+    bool same = pos.isWhiteMove() == gB.wtm && pos.getCastleMask() == gB.castle && pos.getEpSquare().asInt() == gB.ep;
+    for (int i = 0; i < 64; i++) same = same && pos.getPiece(Square(i)) == pieceAt(gB, i);
+    if (!same) listBoardMismatch = true;
+    int n = nondet_int(); ASSUME(n >= 0 && n <= MAXL);
+    ml.size = 0;
+    int lf[MAXL], lt[MAXL];
+    for (int i = 0; i < MAXL; i++) {
+        lf[i] = lt[i] = -1;
+        if (i < n) {
+            int from = nondet_int(), to = nondet_int(), prom = nondet_int(); bool gc;
+            ASSUME(from >= 0 && from < 64 && to >= 0 && to < 64 && prom >= 0 && prom <= 12);
+            ASSUME(legalMove(gB, from, to, prom, gc));
+            ml.addMove(Square(from), Square(to), prom); lf[i] = from; lt[i] = to;
+        }
+    }
+    for (int k = 0; k < NMEN; k++) {                      // no legal move onto the ep square is missing
+        if (gB.men[k].p == 0) continue;
+        bool gc; if (!legalMove(gB, gB.men[k].s, gB.ep, 0, gc)) continue;
+        bool listed = false; for (int i = 0; i < MAXL; i++) listed = listed || (lf[i] == gB.men[k].s && lt[i] == gB.ep);
+        ASSUME(listed);
+    }
+}
+extern "C" void model_removeIllegalNop(Position& pos, MoveList& ml) {}
+#endif
+
 extern "C" void h_fixup(void) {
     Brd b; bool wtm = (verif_param() & 1) != 0;
     symbolicBoardAnyMover(b, wtm);
     ASSUME(b.ep != -1);                                   // (without an ep square the function returns at once)
+#ifdef ABSLIST
+    gB = b; listBoardMismatch = false;
+#endif
     Position& pos = buildPos(b);
     U64 h0 = pos.zobristHash();
     TextIO::fixupEPSquare(pos);                           // real
     int want = fixedEp(b);
     verif_observe((U64)(unsigned)pos.getEpSquare().asInt());
+#ifdef ABSLIST
+    CHECK(!listBoardMismatch, "the move list is asked for the unchanged position");
+#endif
     CHECK(pos.getEpSquare().asInt() == want, "ep square kept iff a pawn can legally capture en passant");
     bool same = pos.isWhiteMove() == b.wtm && pos.getCastleMask() == b.castle;
     for (int i = 0; i < 64; i++) same = same && pos.getPiece(Square(i)) == pieceAt(b, i);
